@@ -105,6 +105,25 @@ def r07_1(ctx: Ctx):
     all_add = [c for c in ast.walk(inner[0]) if isinstance(c, ast.Call) and isinstance(c.func, ast.Attribute) and c.func.attr == "add_child"]
     all_app = [c for c in ast.walk(inner[0]) if isinstance(c, ast.Call) and isinstance(c.func, ast.Attribute) and c.func.attr == "append" and "_levels" in norm(c.func.value) or isinstance(c, ast.Call) and isinstance(c.func, ast.Attribute) and c.func.attr == "append" and norm(c.func.value).startswith(f"{selfn}.levels")]
     obs.append(ctx.ob("R07.1", f, add[0] if add else call, status=OK if (len(add) == 1 and len(all_add) == 1) else VIOLATION, detail="child registered with its parent (unconditionally, once)" if (len(add) == 1 and len(all_add) == 1) else f"the child is not added exactly once, unconditionally, to `{deme_v}`'s children ({[norm(c) for c in all_add]})", construct="register-parent"))
+    # both registrations happen on every path that leaves the construction (no early return / break / continue in between)
+    if len(add) == 1 and len(app) == 1:
+        cfg = ctx.cfg(f)
+        cnode = next((x for x in cfg.nodes if x.ast is not None and any(y is call for y in ast.walk(x.ast))), None)
+        anode = next((x for x in cfg.nodes if x.kind == "stmt" and x.ast is add[0]), None)
+        pnode = next((x for x in cfg.nodes if x.kind == "stmt" and x.ast is app[0]), None)
+        L = cfg.loop_of(cnode) if cnode is not None else None
+        targets = [cfg.exit] + ([L["head"]] if L is not None else [])
+        for reg, what in ((anode, "added to its parent's children"), (pnode, "appended to its level")):
+            if cnode is None or reg is None:
+                continue
+            leak = None
+            for tgt in targets:
+                pth = cfg.find_path(cnode, tgt, avoid=lambda x, reg=reg: x is reg)
+                if pth is not None and len(pth) > 1:
+                    leak = pth
+                    break
+            if leak is not None:
+                obs.append(ctx.ob("R07.1", f, reg.stmt, status=VIOLATION, detail=f"on some path a freshly created child is not {what} (the step is left between the construction and the registration): the tree's levels and the parent / child links disagree", witness=[f"L{x.lineno}: {x.label[:70]}" for x in leak], construct="register-all-paths:" + what.split()[0]))
     obs.append(ctx.ob("R07.1", f, app[0] if app else call, status=OK if (len(app) == 1 and len(all_app) == 1) else VIOLATION, detail="child appended to levels[child level] (unconditionally, once)" if (len(app) == 1 and len(all_app) == 1) else f"the child is not appended exactly once, unconditionally, to levels[{lvl_txt}] ({[norm(c) for c in all_app]})", construct="register-level"))
     return obs
 
@@ -292,7 +311,8 @@ def r07_4(ctx: Ctx):
                     if not is_tree:
                         continue
                     ok = f.cls is tree and f.name in ("__init__", "_do_sprout") and n.func.attr == "append" and holder.attr == "_levels" and holder is not n.func.value
-                    obs.append(ctx.ob("R07.4", f, n, status=OK if ok else VIOLATION, detail="a level grows by append in DemeTree.__init__/_do_sprout" if ok else f"`{norm(n)}` restructures the tree's levels in {f.short}"))
+                    in_hook = any(h in f.qualname.split(".") for h in ("__setstate__", "__getstate__", "__reduce__", "__deepcopy__"))
+                    obs.append(ctx.ob("R07.4", f, n, status=OK if ok else INCONCLUSIVE if in_hook else VIOLATION, detail="a level grows by append in DemeTree.__init__/_do_sprout" if ok else f"`{norm(n)}` restructures the tree's levels in {f.short}" + (" (snapshot reconstruction code: not analysed)" if in_hook else "")))
             for t in tg:
                 base_t = t
                 while isinstance(base_t, ast.Subscript):
@@ -305,7 +325,8 @@ def r07_4(ctx: Ctx):
                         ok = isinstance(n.value, ast.List) and not n.value.elts
                         obs.append(ctx.ob("R07.4", f, n, status=OK if ok else VIOLATION, detail="children start empty" if ok else "children do not start empty"))
                     else:
-                        obs.append(ctx.ob("R07.4", f, n, status=VIOLATION, detail=f"`{norm(n)}` rebinds or overwrites tree structure in {f.short}"))
+                        in_hook = any(h in f.qualname.split(".") for h in ("__setstate__", "__getstate__", "__reduce__", "__deepcopy__"))
+                        obs.append(ctx.ob("R07.4", f, n, status=INCONCLUSIVE if in_hook else VIOLATION, detail=f"`{norm(n)}` rebinds or overwrites tree structure in {f.short}" + (" (snapshot reconstruction code: not analysed)" if in_hook else "")))
     return obs
 
 
@@ -659,6 +680,8 @@ def r07_8(ctx: Ctx):
 
             def seed_ind_status(r):
                 """OK / VIOLATION / INCONCLUSIVE for one expression appended as the seed individual"""
+                while isinstance(r, ast.Call) and isinstance(r.func, ast.Attribute) and r.func.attr == "evaluate" and not r.args:
+                    r = res_s(r.func.value)  # Individual(...).evaluate() returns the individual itself
                 if isinstance(r, ast.IfExp):
                     sts = [seed_ind_status(res_s(r.body)), seed_ind_status(res_s(r.orelse))]
                     return (VIOLATION, sts[0][1] if sts[0][0] == VIOLATION else sts[1][1]) if VIOLATION in (sts[0][0], sts[1][0]) else (INCONCLUSIVE, sts[0][1] or sts[1][1]) if INCONCLUSIVE in (sts[0][0], sts[1][0]) else (OK, "")
